@@ -643,3 +643,121 @@ func TestVerifC17(t *testing.T) {
 		out.Cover("cases")
 	}
 }
+
+// ---- replay: re-execute a recorded case line on the code as it is now ---------
+
+func c17ScriptFromCase(t testing.TB, toks []int64) *c17Script {
+	T := c17Build(t)
+	pos := 0
+	next := func() int64 {
+		if pos >= len(toks) {
+			t.Fatalf("c17 replay: truncated case")
+		}
+		v := toks[pos]
+		pos++
+		return v
+	}
+	if next() != 17 {
+		t.Fatalf("c17 replay: not a C17 case")
+	}
+	sc := &c17Script{thresh: int(next())}
+	localBy := func(tw, rest int64, needRest bool) c17Addr {
+		for _, a := range c17Locals {
+			atw, arest := c17Laddr(T, a)
+			if atw == tw && (!needRest || arest == rest) {
+				return a
+			}
+		}
+		t.Fatalf("c17 replay: unknown local address (%d,%d)", tw, rest)
+		return c17Addr{}
+	}
+	nl := int(next())
+	for i := 0; i < nl; i++ {
+		tw, rest := next(), next()
+		sc.listen = append(sc.listen, localBy(tw, rest, true))
+	}
+	nq := int(next())
+	for i := 0; i < nq; i++ {
+		tw, rest := next(), next()
+		sc.queries = append(sc.queries, localBy(tw, rest, true))
+	}
+	nc := int(next())
+	for i := 0; i < nc; i++ {
+		tw := next()
+		next()
+		next()
+		rk := next()
+		var r [8]int64
+		for j := range r {
+			r[j] = next()
+		}
+		ip := ""
+		switch rk {
+		case 4:
+			ip = fmt.Sprintf("%d.%d.%d.%d", r[0]>>24&255, r[0]>>16&255, r[0]>>8&255, r[0]&255)
+		case 6:
+			var b [16]byte
+			for j := 0; j < 8; j++ {
+				b[2*j] = byte(r[j] >> 8)
+				b[2*j+1] = byte(r[j])
+			}
+			ip = netip.AddrFrom16(b).String()
+			if netip.AddrFrom16(b).Is4In6() {
+				ip = "::ffff:" + netip.AddrFrom16(b).Unmap().String()
+			}
+		}
+		sc.conns = append(sc.conns, c17ConnSpec{local: localBy(tw, 0, false), remoteIP: ip, port: 1000 + i%3})
+	}
+	for pos < len(toks) {
+		kind := int(next())
+		op := c17Op{kind: kind, conn: int(next())}
+		if op.conn < 0 || op.conn >= nc {
+			t.Fatalf("c17 replay: connection %d out of range", op.conn)
+		}
+		switch kind {
+		case 1:
+			lb, n64, rl, otw := next() != 0, next() != 0, next() != 0, next()
+			next()
+			next()
+			found := false
+			for _, a := range c17Observed {
+				atw := int64(-1)
+				if a.tw != "" {
+					atw = T.obsTW[a.tw]
+				}
+				if a.lb == lb && a.n64 == n64 && a.relay == rl && atw == otw {
+					op.observed, found = a, true
+					break
+				}
+			}
+			if !found {
+				t.Fatalf("c17 replay: no observed address of that class")
+			}
+		case 2, 3:
+		default:
+			t.Fatalf("c17 replay: bad op %d", kind)
+		}
+		sc.ops = append(sc.ops, op)
+		// skip the recorded observation
+		for i := 0; i < nq; i++ {
+			k := int(next())
+			pos += k
+		}
+		k := int(next())
+		pos += 2 * k
+	}
+	return sc
+}
+
+func TestVerifC17Replay(t *testing.T) {
+	toks := verifh.ReplayCase()
+	if toks == nil {
+		t.Fatal("VERIF_REPLAY_CASE not set")
+	}
+	out, err := verifh.Open()
+	if err != nil {
+		t.Fatal(err)
+	}
+	defer out.Close()
+	out.Case(c17Exec(t, nil, c17ScriptFromCase(t, toks)))
+}
